@@ -19,7 +19,7 @@ LEVEL = "model_checking"
 RULE = ("harnesses: H0 every leftover cache directory (installed files x stale temp copy x lock file x time stamp) then a "
         "load of each version; H1 two populators || one loader on an empty cache; H2 one populator crashed at every point, then loader, "
         "populator, loader; H3 populator || populator; H4 two CacheLock holders (time-out allowed to fire; H4m: one of them records the refresh time), H4c three holders; H8 slow lock holder || loader (the loader's lock attempts may time out, empty and half-filled cache); H9 sequential refresh histories with the cached file torn / replaced / deleted in between; H5c two time-recording refreshers at one clock time; H5 refresh interval "
-        "x clock answers x torn time-stamp files; H6 network refresh (fake server) crashed at every point || loader; H7 network refresh whose download is cut after k bytes (real url_to_file over a fake response).  Every "
+        "x clock answers x torn time-stamp files; H6 network refresh (fake server) crashed at every point || loader; H7 network refresh whose download is cut after k bytes (real url_to_file over a fake response); H8l the slow holder beside a loader of a bundled library schema; H10 / H10c get_library_data: one reader crashed at every point / two readers interleaved, then a reader in a fresh process without network; H11 merged requests `a,b` of two bundled libraries from every partly filled cache directory (sequential).  Every "
         "execution with <= B deviations (preemption of a runnable process, lock time-out, crash) is run on the real functions; "
         "state = (directory contents, lock holder, per-process program point) reached after each step; transition = one "
         "interposed operation; non-trivial = execution with at least one deviation")
@@ -30,7 +30,7 @@ ASSUMPTIONS = [
     "portalocker; its conformance with the real portalocker is checked by ./check --selftest with two real processes",
     "processes are modelled as threads: process-local state (lru caches, HED_CACHE_DIRECTORY, os.getpid) is given per process "
     "or reset per execution",
-    "installed schema set reduced to two bundled files (quick) / four (thorough)",
+    "installed schema set reduced to three bundled files (quick: 8.3.0, 8.2.0, testlib_2.0.0; H11 adds score_1.1.0 for its own runs) / four (thorough)",
 ]
 
 CUR = None          # the current sched.Execution
